@@ -20,6 +20,8 @@ pub struct Ctl {
     pub chunk: String,               // full | one | rand
     pub rng: u64,
     pub hard_fault: bool,            // a hard fault (error / premature EOF) was delivered since last reset
+    pub steps: std::collections::VecDeque<Value>, // explicit environment script for the next I/O calls (from a TLC behaviour)
+    pub drift: bool,                 // the implementation's I/O pattern left the script (informational)
 }
 
 pub struct ScriptedReader {
@@ -59,8 +61,14 @@ impl Read for ScriptedReader {
 impl ScriptedReader {
     fn read_inner(&mut self, buf: &mut [u8]) -> std::io::Result<usize> {
         let mut c = self.ctl.borrow_mut();
-        let f = Self::fault_now(&mut c);
+        let mut f = Self::fault_now(&mut c);
         let want = buf.len();
+        let mut forced: Option<usize> = None;
+        if let Some(st) = c.steps.pop_front() {
+            if let Some(k) = st.as_u64() { forced = Some(k as usize); }
+            else { match st.as_str() { Some("intr") => f = Some("interrupted".into()), Some("err") => f = Some("error".into()),
+                                       Some("eof") => f = Some("eof".into()), _ => { c.drift = true; } } }
+        }
         let avail = (self.data.len() as u64).saturating_sub(self.pos) as usize;
         match f.as_deref() {
             Some("error") => {
@@ -80,8 +88,9 @@ impl ScriptedReader {
             _ => {}
         }
         let mut n = want.min(avail);
+        if let Some(k) = forced { if k >= 1 && k <= n { n = k; } else { c.drift = true; } }
         let short = f.as_deref() == Some("short");
-        if n > 1 {
+        if n > 1 && forced.is_none() {
             match c.chunk.as_str() {
                 "one" => n = 1,
                 "rand" => n = 1 + (next_rand(&mut c) % n as u64) as usize,
@@ -104,7 +113,10 @@ impl Seek for ScriptedReader {
 impl ScriptedReader {
     fn seek_inner(&mut self, to: SeekFrom) -> std::io::Result<u64> {
         let mut c = self.ctl.borrow_mut();
-        let f = Self::fault_now(&mut c);
+        let mut f = Self::fault_now(&mut c);
+        if let Some(st) = c.steps.pop_front() {
+            match st.as_str() { Some("seek_ok") => {}, Some("seek_fail") => f = Some("error".into()), _ => { c.drift = true; } }
+        }
         if matches!(f.as_deref(), Some("error") | Some("eof")) {
             c.hard_fault = true;
             c.log.push(json!({"op":"seek","f":"error"}));
@@ -144,6 +156,12 @@ fn sevent(op: &Value, res: Value, a: u64, m: u64, ctl: &Rc<RefCell<Ctl>>) -> Val
     let mut e = event(op, res, a, m);
     e["io"] = io;
     e["faulted"] = json!(hf);
+    {
+        let mut c = ctl.borrow_mut();
+        e["drift"] = json!(c.drift || !c.steps.is_empty());
+        c.drift = false;
+        c.steps.clear();
+    }
     e["calls"] = json!(ctl.borrow().calls);
     e
 }
@@ -275,6 +293,9 @@ pub fn stream_op(x: &mut Exec, op: &Value) -> Vec<Value> {
             let base = c.calls;
             c.faults = parse_faults(f, base);
             c.perm_from = op.get("perm_from").and_then(|v| v.as_u64()).map(|v| base + v);
+        }
+        if let Some(st) = op.get("steps").and_then(|v| v.as_array()) {
+            ctl.borrow_mut().steps = st.iter().cloned().collect();
         }
         if let Some(ch) = op.get("chunk").and_then(|v| v.as_str()) {
             ctl.borrow_mut().chunk = ch.to_string();
